@@ -187,6 +187,19 @@ TARGETED = [
     {"type": "fixed", "name": "Z", "size": 0},
     {"type": "map", "values": {"type": "long", "logicalType": "timestamp-micros"}},
     {"type": "record", "name": "L", "fields": [{"name": "n", "type": ["null", "L"]}]},
+    # annotations that do not go with the underlying type (or are unknown) are ignored: the
+    # generated values are plain values of the underlying type
+    {"type": "int", "logicalType": "timestamp-micros"},
+    {"type": "record", "name": "Mis", "fields": [
+        {"name": "a", "type": {"type": "int", "logicalType": "time-micros"}},
+        {"name": "b", "type": {"type": "int", "logicalType": "timestamp-millis"}},
+        {"name": "c", "type": {"type": "long", "logicalType": "date"}},
+        {"name": "d", "type": {"type": "long", "logicalType": "time-millis"}},
+        {"name": "e", "type": {"type": "string", "logicalType": "decimal", "precision": 4}},
+        {"name": "f", "type": {"type": "bytes", "logicalType": "uuid"}},
+        {"name": "g", "type": {"type": "int", "logicalType": "no-such-logical-type"}},
+        {"name": "h", "type": {"type": "map", "values": ["null", {"type": "int", "logicalType": "local-timestamp-micros"}]}},
+        {"name": "i", "type": {"type": "array", "items": {"type": "double", "logicalType": "date"}}}]},
 ]
 
 
